@@ -116,6 +116,12 @@ class Trainer:
             # For now, refit (inefficient but correct)
             u = self.state.get_history("u", flat=True)[trim_idx]
             labels = self.clusterer.predict(u)
+            if len(np.unique(labels)) < self.clusterer.n_clusters_:
+                # A cluster of the previous fit no longer attracts any training
+                # point: mode statistics (one per occurring label) and the labels
+                # the resampler predicts would disagree, so refit now.
+                self.clusterer.fit(u, weights_trimmed)
+                labels = self.clusterer.predict(u)
             mode_stats = ModeStatistics.from_particles(
                 u, weights_trimmed, labels, dof_fallback=self.DOF_FALLBACK
             )
